@@ -1363,7 +1363,7 @@ func (g *Gen) graphHash() *data.ContentHash_Graph {
 func (g *Gen) rawHash() *data.ContentHash_Raw {
 	h := &data.ContentHash_Raw{Hash: g.contentBytes(), DigestAlgorithm: 1, FileExtension: []string{"csv", "json", "pdf", "txt", "bin", "jp2", "tar7z", "rdf"}[g.R.Intn(8)]}
 	if g.hostile() && g.chance(0.3) {
-		h.FileExtension = []string{"CSV", "x", "toolong7", "a.b"}[g.R.Intn(4)]
+		h.FileExtension = []string{"CSV", "x", "toolong7", "a.b", ".abc", "ab."}[g.R.Intn(6)]
 	}
 	return h
 }
